@@ -24,6 +24,7 @@ pub fn def() -> CheckDef {
         assumptions: &["wrong data on a damaged file is not this property's business", "termination judged by a seam-step budget per API call and the supervisor's CPU watchdog"],
         cpu_limit_s: 240,
         fault_kinds: "as C05 (F-FC enumerated, F-BF, F-TR, F-LW, F-MW, F-CR/F-WT crash images), restricted to images permissive open accepts",
+        count_subruns: true,
     }
 }
 
